@@ -92,6 +92,8 @@ def run(ctx):
             check_instantiate_builder(ctx, m, g)
         for h in m.handlers["exec"][:1]:
             ctx.sample({"program": m.key, "executor_impls": len(ex), "querier_impls": len(qu)}, cap=5)
+    from .. import witness
+    witness.run_for(ctx, "C10")
     C.corpus_adequacy(ctx, enforce=False)
     ctx.floor("C10.executor", 100)
     ctx.floor("C10.querier", 100)
